@@ -23,7 +23,11 @@ Streams
                 `if c: break / continue` at EVERY position of a loop body - in front of, between and behind nested
                 loops, nested in if / try blocks, bare at the end of a branch, in the else clause of an inner loop;
                 early `return` nested in an `if`; lambdas called at once, local defs with a loop and a jump of
-                their own, local classes): extract_function, compile, then the entry function
+                their own, local classes; closures: a lambda / local def whose BODY reads names of the enclosing
+                function as free variables, defined some statements behind their binding and called further on, so
+                that runs in front of the definition bind names whose only later use is inside a nested function
+                body - next to names used directly, default arguments, shadowing parameters, comprehensions;
+                such runs are drawn with more weight): extract_function, compile, then the entry function
                 of the old and the new program is called on argument tuples drawn until every line of the
                 selection was executed (gen.refactor_flow); same return value required wherever the
                 original returns (a refactored program that does not terminate is stopped by a line / int-size
@@ -32,6 +36,14 @@ Streams
   inputs        real `extract._find_inputs_and_outputs` calls: the names of the selection with the verdict of
                 the real lookup for EVERY read (computed by the harness with the real `context.goto` /
                 `_is_name_input`), the Lean model `findInputsOutputs` must return the same two lists
+  needed        real `extract._find_needed_output_variables` calls (which of the names the selection binds are handed
+                back): the children of the searched suite as forests (name leaves with is_definition(), `.name`
+                trailers, funcdef / lambdef split into header and body, `start_pos < at_least_pos` per child); the Lean
+                model `ExtractOut.needed` (walk shape translated from the source) must yield the same names in the same
+                order, its walk the same name leaves as the real `_find_non_global_names`, and must agree with the
+                specification `ExtractOut.readsLater` (stream needed-spec: every candidate read behind the selection -
+                also from the body of a closure - is handed back); a disagreement starts a failing-input search
+                (old and new program executed on further argument tuples)
   nonextractable  real outermost `extract._check_for_non_extractables` calls (text streams, corpus, in-process flow
                 programs): the selected nodes as a forest (leaves with their value, loop statements split at `else`,
                 scope nodes, other nodes); the Lean model `NonExtractable.refuses` (branches translated from the
@@ -49,7 +61,7 @@ from common import short
 from gen import refactor_gen, refactor_shapes, refactor_flow
 from props.c07 import dump_tree, load_own_known, split_keepends, sandbox_quirk
 
-MODELS = ['Refactor', 'Tree', 'ExtractIO', 'NonExtractable']
+MODELS = ['Refactor', 'Tree', 'ExtractIO', 'NonExtractable', 'ExtractOut']
 MANIFEST = dict(
     text='Theorems over the model of refactoring.inline and extract._replace: inline either refuses (messages '
          'identical to the source, translator-checked) or rewrites only the references, the defining statement and '
@@ -70,18 +82,29 @@ MANIFEST = dict(
          'break / continue not enclosed by a loop of the selection (nested def / class / lambda start afresh, a loop\'s '
          'else clause is outside of it), and its flag never leaks from a node to the later siblings (general theorem for '
          'every variant that does not rebind the flag; kernel-checked counter-witnesses for the shared-call variant that '
-         'rebinds it and for a variant that counts the else clause to the loop). Tie: translator + correspondence '
-         '(table rows through the real inline and through CPython ast; captured inline / _replace / '
-         '_find_inputs_and_outputs / _check_for_non_extractables calls on generated programs). Compiles-or-refuses, '
+         'rebinds it and for a variant that counts the else clause to the loop); _find_needed_output_variables over '
+         '_find_non_global_names (model ExtractOut; the walk shape - attribute names passed over, the recursive call gets '
+         'ALL children of every node - and the loop / the `or [return_variables[-1]]` expression translator-checked) hands '
+         'back exactly the bound names that are read behind the selection at any depth, the bodies of nested functions '
+         'and lambdas (closures) included, each once (needed_outputs_complete / _sound / _nodup, return_variables_spec; '
+         'general theorem for every walk that enters nested bodies; kernel-checked counter-witness '
+         'pruned_walk_misses_closure_read for a walk that leaves the body of a funcdef / lambdef out). Tie: translator + '
+         'correspondence (table rows through the real inline and through CPython ast; captured inline / _replace / '
+         '_find_inputs_and_outputs / _check_for_non_extractables / _find_needed_output_variables calls on generated '
+         'programs). Compiles-or-refuses, '
          'behavioural equivalence and '
          'the extract->inline round trip are checked by compiling and executing generated programs (a test, '
          'labelled as such), for statement ranges on function bodies with control flow by calling the function of '
-         'the old and the new program on argument tuples drawn until every line of the selection ran; failures of '
+         'the old and the new program on argument tuples drawn until every line of the selection ran (the bodies '
+         'contain closures that read names bound some statements earlier, so an output that is used only from a '
+         'nested function body is exercised); failures of '
          'known root causes are recognised by an explicit rule per root cause (harness/gen/refactor_shapes.py, '
          'harness/gen/refactor_flow.py), anything else is a VIOLATION.',
     note='Modelled not verified: which names get_references returns, _find_nodes (selection normalisation), the '
-         "lookup verdicts (context.goto, flow analysis) and the output analysis of extract_function are "
-         "oracle-checked only; CPython's parser is the judge of the precedence table.",
+         "lookup verdicts (context.goto, flow analysis) are oracle-checked only; the output analysis is modelled "
+         "textually (which later names are looked at), that a textual read behind the selection is the right "
+         "criterion (code after the enclosing statement, the next loop iteration, a closure defined BEFORE the "
+         "selection) is oracle-checked only; CPython's parser is the judge of the precedence table.",
     technique='Lean 4 proof over hand-written model + translator-generated constants + differential '
               'correspondence + execution oracle',
     design='5.C06')
@@ -230,6 +253,7 @@ class Capture:
         self.inputs_calls = []      # (request for the Lean model, what the real function returned)
         self.check_calls = []       # outermost `_check_for_non_extractables` calls: (request, {'refused': bool})
         self.check_depth = 0
+        self.needed_calls = []      # `_find_needed_output_variables` calls: (request, {'needed': [...], 'names': [...]})
 
     def __enter__(self):
         from jedi.api import refactoring
@@ -237,7 +261,7 @@ class Capture:
         import jedi.api as api
         self.mods = (refactoring, extract)
         self.orig = (refactoring.inline, extract._replace, extract._find_inputs_and_outputs,
-                     extract._check_for_non_extractables)
+                     extract._check_for_non_extractables, extract._find_needed_output_variables)
         cap = self
 
         def _check_for_non_extractables(nodes, in_loop=False):
@@ -276,8 +300,15 @@ class Capture:
                 if not sandbox_quirk(e):
                     raise
             return res
+        def _find_needed_output_variables(context, search_node, at_least_pos, return_variables):
+            # a generator in the source: consumed here, handed on as an iterator
+            candidates = list(return_variables)
+            res = list(cap.orig[4](context, search_node, at_least_pos, return_variables))
+            cap.needed_calls.append(needed_request(search_node, at_least_pos, candidates, res))
+            return iter(res)
         refactoring.inline = inline
         extract._replace = _replace
+        extract._find_needed_output_variables = _find_needed_output_variables
         extract._find_inputs_and_outputs = _find_inputs_and_outputs
         extract._check_for_non_extractables = _check_for_non_extractables
         from jedi.api.exceptions import RefactoringError
@@ -287,6 +318,7 @@ class Capture:
     def __exit__(self, *a):
         self.mods[0].inline, self.mods[1]._replace, self.mods[1]._find_inputs_and_outputs = self.orig[:3]
         self.mods[1]._check_for_non_extractables = self.orig[3]
+        self.mods[1]._find_needed_output_variables = self.orig[4]
 
 
 class RefactoringErrorBox:
@@ -319,6 +351,64 @@ def nonextractable_request(nodes):
                 out.append({'k': 'other', 'c': conv(n.children)})
         return out
     return {'op': 'nonextractable', 'nodes': conv(nodes)}
+
+
+FUNCTION_SCOPE_TYPES = ('funcdef', 'lambdef')
+
+
+def needed_request(search_node, at_least_pos, candidates, result):
+    """the children of `search_node` as the forests of the Lean model `ExtractOut` (name leaves with is_definition(),
+    runs of other leaves as one leaf, `.name` trailers, funcdef / lambdef split into children[:-1] and the body,
+    other nodes; node types: the python grammar, not read from jedi), each with `start_pos < at_least_pos`; the
+    implementation side: what the real generator yielded and what the real `_find_non_global_names` yields for
+    all children"""
+    from jedi.api.refactoring import extract
+
+    def conv(ns):
+        out = []
+        for n in ns:
+            ch = getattr(n, 'children', None)
+            if ch is None:
+                if n.type == 'name':
+                    out.append({'k': 'name', 'v': n.value, 'd': bool(n.is_definition())})
+                elif not out or out[-1]['k'] != 'leaf':
+                    out.append({'k': 'leaf'})
+            elif n.type == 'trailer' and ch[0] == '.':
+                out.append({'k': 'attr', 'c': conv(ch)})
+            elif n.type in FUNCTION_SCOPE_TYPES:
+                out.append({'k': 'scope', 'h': conv(ch[:-1]), 'b': conv(ch[-1:])})
+            else:
+                out.append({'k': 'node', 'c': conv(ch)})
+        return out
+    sibs = [{'before': bool(n.start_pos < at_least_pos), 'tree': conv([n])} for n in search_node.children]
+    names = [[n.value, bool(n.is_definition())] for n in extract._find_non_global_names(search_node.children)]
+    return ({'op': 'needed', 'sibs': sibs, 'rv': list(candidates)},
+            {'needed': list(result), 'names': names})
+
+
+def needed_bucket(req, ans):
+    """where the candidates are read behind the selection (histogram key; from the request alone)"""
+    rv = set(req['rv'])
+    direct, inner = set(), set()
+
+    def walk(forest, in_body):
+        for n in forest:
+            if n['k'] == 'name':
+                if not n['d'] and n['v'] in rv:
+                    (inner if in_body else direct).add(n['v'])
+            elif n['k'] == 'scope':
+                walk(n['h'], in_body)
+                walk(n['b'], True)
+            elif n['k'] == 'node':
+                walk(n['c'], in_body)
+    for sib in req['sibs']:
+        if not sib['before']:
+            walk(sib['tree'], False)
+    if inner - direct:
+        return 'read-only-from-a-nested-function-body'
+    if inner:
+        return 'read-directly-and-from-a-nested-function-body'
+    return 'read-directly' if direct else 'no-candidate-read-later' if rv else 'no-candidate'
 
 
 def inputs_request(module_context, context, nodes, result):
@@ -667,6 +757,9 @@ def stream_programs(ctx, reqs, pending):
             for req, impl in cap.check_calls:
                 reqs.append(req)
                 pending.append(('nonextractable', case, impl))
+            for req, impl in cap.needed_calls:
+                reqs.append(req)
+                pending.append(('needed', case, impl))
             if err is not None:
                 ctx.count('oracle-compile', key, nontrivial=False, bucket=kind + '/refused')
                 continue
@@ -785,6 +878,8 @@ def flow_judge(ctx, r, origin='generated program'):
         return
     ctx.count('oracle-compile', key, nontrivial=True, bucket=bucket,
               sample={'request': {'start': sel['start'], 'until': sel['until'], 'kinds': sel.get('kinds')}})
+    if r['status'] in ('no-compile', 'differs') and r.get('source') is not None:
+        FLOW_FAILED.add((r['source'], tuple(sel['start']), tuple(sel['until'])))
     if r['status'] == 'no-compile':
         case = flow_case(r['source'], r['entry'], sel, [], ['flow'] + list(sel.get('kinds', [])))
         fail(ctx, 'oracle-compile', 'extract_function returned a program that does not compile (%s)' % origin, case,
@@ -834,6 +929,9 @@ def flow_one(src, entry, sel, args, sink=None):
         for req, impl in cap.check_calls:
             sink[0].append(req)
             sink[1].append(('nonextractable', case, impl))
+        for req, impl in cap.needed_calls:
+            sink[0].append(req)
+            sink[1].append(('needed', case, impl))
     res.update({'rec': 'case', 'entry': entry, 'sel': sel, 'covered': len(covered), 'need': len(need),
                 'old_raises': sum(1 for (o, l_) in runs if o[0] != 'ok' or refactor_flow.exception_leaves(l_, sel)),
                 'nargs': len(args), 'source': src,
@@ -851,7 +949,26 @@ def flow_in_process(ctx, sink):
         for entry in entries:
             mine = [x for x in sels if x['func'] == entry['name']]
             args = refactor_gen.flow_arguments(rng, entry, 8)
-            for sel in refactor_flow.pick_selections(rng, mine, 4):
+            picked = refactor_flow.pick_selections(rng, mine, 4)
+            # runs that bind a free variable of a closure defined behind them: the `needed` correspondence wants them
+            feeding = [x for x in mine if x.get('closure') and x['n'] > 1 and x not in picked]
+            picked += sorted(feeding, key=lambda x: (x['closure'] != 'only', x.get('depth', 0), x['n']))[:2]
+            for sel in picked:
+                flow_judge(ctx, flow_one(src, entry['entry'], sel, args, sink))
+    # stratum: runs whose bound names are read behind them ONLY from the body of a closure (programs are cheap to
+    # generate, only these runs are evaluated)
+    want, tries = ctx.size(8, 80), 0
+    while want > 0 and tries < ctx.size(60, 600):
+        tries += 1
+        src, entries = refactor_gen.gen_flow_program(rng)
+        sels = [x for x in refactor_flow.selections(src) if x.get('closure') == 'only' and x['n'] > 1]
+        for entry in entries:
+            mine = [x for x in sels if x['func'] == entry['name']]
+            if not mine:
+                continue
+            args = refactor_gen.flow_arguments(rng, entry, 8)
+            for sel in mine[:2]:
+                want -= 1
                 flow_judge(ctx, flow_one(src, entry['entry'], sel, args, sink))
 
 
@@ -975,6 +1092,42 @@ def fixed_probes(ctx):
                  observed={'differences': diff, 'new_code': new})
 
 
+FLOW_FAILED = set()     # (source, start, until) of flow cases the oracle has already reported
+NEEDED_SEARCHED = []
+
+
+def needed_failing_input(ctx, case):
+    """failing-input search behind a disagreement on the handed-back names: the property itself (execute the old and
+    the new program) on that program and selection with further argument tuples; at most a few per run"""
+    if case.get('entry') is None or len(NEEDED_SEARCHED) >= 4:
+        return
+    k = (case['source'], (case['line'], case['column']), (case['until_line'], case['until_column']))
+    if k in FLOW_FAILED or k in NEEDED_SEARCHED:
+        return
+    NEEDED_SEARCHED.append(k)
+    import parso
+    fname = case['entry'].split('.')[-1].rstrip('()')
+    fn = [f for f in _all_funcdefs(parso.parse(case['source'])) if f.name.value == fname]
+    if not fn:
+        return
+    params = [p.name.value for p in fn[0].get_params() if p.name.value != 'self']
+    entry = {'params': [p for p in params if p != 't'], 'tuples': [p for p in params if p == 't']}
+    args = list(case.get('args') or [])
+    for a in refactor_gen.flow_arguments(ctx.subrng('needed-search'), entry, 24):
+        if a not in args:
+            args.append(a)
+    sel = {'start': [case['line'], case['column']], 'until': [case['until_line'], case['until_column']]}
+    flow_judge(ctx, flow_one(case['source'], case['entry'], sel, args),
+               origin='failing-input search behind correspondence:needed')
+
+
+def _all_funcdefs(node):
+    for c in getattr(node, 'children', []):
+        if c.type == 'funcdef':
+            yield c
+        yield from _all_funcdefs(c)
+
+
 def compare(ctx, reqs, pending, answers):
     for (kind, case, impl), req, ans in zip(pending, reqs, answers):
         key = json.dumps(req, sort_keys=True)
@@ -990,6 +1143,24 @@ def compare(ctx, reqs, pending, answers):
             ctx.count('inputs', key, nontrivial=any(o['outer'] for o in reads),
                       bucket='verdicts-of-one-name-differ' if mixed else 'aug-target' if
                       any(o['aug'] for o in req['occs']) else 'plain')
+        elif kind == 'needed':
+            model = ans if 'error' in ans else {'needed': ans['needed'], 'names': ans['names']}
+            b = needed_bucket(req, ans)
+            ctx.count('needed', key, nontrivial=b.startswith('read'), bucket=b)
+            if 'error' not in ans:
+                # the specification on this input: every candidate that is read behind the selection is handed back
+                # (and the expression of extract_function returns it)
+                later = set(ans['reads_later'])
+                lost = [v for v in req['rv'] if v in later and (v not in ans['needed'] or v not in ans['returned'])]
+                if lost:
+                    ctx.tie_broken('correspondence:needed-spec', short(
+                        {'lost': lost, 'needed': ans['needed'], 'returned': ans['returned'], 'case': case}, 2500))
+            if model != impl:
+                ctx.tie_broken('correspondence:needed', short(
+                    {'candidates': req['rv'], 'model_needed': model.get('needed'), 'impl_needed': impl['needed'],
+                     'names_agree': model.get('names') == impl['names'], 'case': case}, 2500))
+                needed_failing_input(ctx, case)
+            continue
         elif kind == 'nonextractable':
             model = ans if 'error' in ans else {'refused': ans['refused']}
             words = re.findall(r'"v": "(break|continue|return|yield)"|"k": "(loop|scope)"', key)
@@ -1039,8 +1210,15 @@ def run(ctx):
         'compilable program is checked by the oracle only',
         'extract_function input analysis: the loop of _find_inputs_and_outputs is modelled and proved complete / sound / '
         'duplicate-free relative to the per-occurrence verdict of the real lookup (context.goto + _is_name_input, flow '
-        'analysis), which is not modelled; whether those verdicts and the output analysis '
-        '(_find_needed_output_variables) are right is decided by the execution oracle of the flow stream only',
+        'analysis), which is not modelled; whether those verdicts are right is decided by the execution oracle of the '
+        'flow stream only',
+        'extract_function output analysis: _find_non_global_names / _find_needed_output_variables are modelled on a forest '
+        'abstraction of the parso nodes (name leaves, `.name` trailers, funcdef / lambdef header and body; node types '
+        'compared with the python grammar names by the correspondence stream `needed`) and proved complete / sound / '
+        'duplicate-free relative to the names READ textually behind the selection among the later siblings; that this is '
+        'the right set (uses after the enclosing statement, in the next loop iteration, by a closure defined in front of '
+        'the selection whose captured name the selection rebinds - generated programs never rebind a captured name) is '
+        'decided by the execution oracle only',
         'behaviour = final module globals of deterministic, builtin-free, exception-free generated programs; for '
         'the flow stream: the return value of the entry function on every drawn argument tuple',
     ]
